@@ -39,6 +39,7 @@ type Unit struct {
 	Key         string
 	Fn          *ssa.Function
 	Assumes     []*Term
+	AssumeTags  map[*Term][]string // assumptions that come from a tagged loop invariant (tag-sliced fallback query)
 	Obligs      []*Oblig
 	Unsupported []string
 	Notes       map[string]bool
@@ -102,6 +103,7 @@ type writeRec struct {
 }
 
 type Exec struct {
+	curTags     []string // tags of the loop invariant being assumed
 	env         *Env
 	unit        *Unit
 	closures    map[*Term]*ClosureVal
@@ -135,6 +137,16 @@ func newExec(env *Env, key string, fn *ssa.Function) *Exec {
 
 // ---- obligations ----
 
+func (x *Exec) tagAssume(g *Term) {
+	if len(x.curTags) == 0 {
+		return
+	}
+	if x.unit.AssumeTags == nil {
+		x.unit.AssumeTags = map[*Term][]string{}
+	}
+	x.unit.AssumeTags[g] = x.curTags
+}
+
 func (x *Exec) assume(st *State, f *Term) {
 	if x.dry > 0 {
 		return
@@ -160,6 +172,7 @@ func (x *Exec) assume(st *State, f *Term) {
 	}
 	x.assumed[g] = true
 	x.unit.Assumes = append(x.unit.Assumes, g)
+	x.tagAssume(g)
 	// equivalent re-parametrised versions of quantified facts (better triggers)
 	for _, a := range altsOf(f) {
 		ag := mkImp(st.pc, a)
@@ -169,6 +182,7 @@ func (x *Exec) assume(st *State, f *Term) {
 		if !x.assumed[ag] {
 			x.assumed[ag] = true
 			x.unit.Assumes = append(x.unit.Assumes, ag)
+			x.tagAssume(ag)
 		}
 	}
 }
@@ -1033,8 +1047,10 @@ func (x *Exec) enterLoop(fr *Frame, li *loopInfo, entry *State) *State {
 		x.assume(head, a.eval(head))
 	}
 	for _, cl := range invs {
+		x.curTags = cl.Tags
 		g := x.evalClause(fr, head, cl, pos, true)
 		x.assume(head, g)
+		x.curTags = nil
 	}
 	if ord == 0 && len(invs) == 0 {
 		x.note(fmt.Sprintf("loop without source ordinal in %s", fr.key))
